@@ -92,15 +92,21 @@ PROPS["C09"] = {
             "entries": {
                 "quick": [
                     {"name": "verifHarnessScanTotal", "params": {"N": 3}},
-                    {"name": "verifHarnessScanNumAgree", "params": {"N": 4}},
                     {"name": "verifHarnessScanIdentAgree", "params": {"N": 4}},
                 ],
                 "thorough": [
                     {"name": "verifHarnessScanTotal", "params": {"N": 4}},
                     {"name": "verifHarnessScanTotal", "params": {"N": 4, "MODE": 0}},
-                    {"name": "verifHarnessScanNumAgree", "params": {"N": 5}},
                     {"name": "verifHarnessScanIdentAgree", "params": {"N": 5}},
                 ],
+            },
+        },
+        {
+            "pkg": "./cue/scanner",
+            "harness": ["scanner/total.go", "scanner/numagree.go"],
+            "entries": {
+                "quick": [{"name": "verifHarnessScanNumAgree", "params": {"N": 4}}],
+                "thorough": [{"name": "verifHarnessScanNumAgree", "params": {"N": 5}}],
             },
         },
         {
@@ -190,6 +196,55 @@ PROPS["C03"] = {
                     {"name": "verifHarnessBoundValidate", "params": {"DIGITS": 6, "EXP": 2, "STRLEN": 3}},
                     {"name": "verifHarnessBoundValidateInt", "params": {"DIGITS": 6, "EXP": 2}},
                 ],
+            },
+        },
+    ],
+}
+
+PROPS["C06"] = {
+    "level": "model_checking",
+    "claim": "Bounded symbolic model checking of /repo's own arithmetic plumbing over the validated decimal contract model: BinOp + - * give the exact value with the int/float kind the spec prescribes (or an error); IntDiv/IntMod/IntQuo/IntRem satisfy the Euclidean and truncated identities for all sign combinations and reject a zero divisor; the six comparison operators agree with one total order by value (numbers across int/float, strings and bytes bytewise); every spelling the scanner accepts as a number literal within the length bound denotes exactly the value of an independent evaluator of the spec grammar (all bases, separators, exponents, SI/IEC multipliers). A silent-rounding defect of integer arithmetic was found and repaired; float precision (34 digits) and fractional multiplier products are recorded known findings.",
+    "note": "Trusted: go/ssa, the executor, z3, the decimal contract model (validated against real apd on every run). Outside: division (/), Pow and pkg/math builtins, number printing and re-reading (apd's formatter), literals longer than the bound, coefficients beyond the stated digits.",
+    "technique": "bounded symbolic execution of adt.BinOp/numOp/intDivOp and literal.ParseNum/NumInfo.Decimal/scanner.Scan from go/ssa; operands are decimals with mathematical-integer coefficients (SMT Int); exactness and identities decided by z3",
+    "bounds": {
+        "quick": "+ - *: int and float operands, |coefficient| < 10^3, exponents in [-1,1]; int*int with coefficients < 10^18 and int+int, int-int with coefficients < 10^35 (results beyond 34 digits); div/mod/quo/rem: |operands| < 10^3 (quick) / 10^4 (thorough; symbolic-by-symbolic multiplication is what limits this); comparisons: same numbers, strings/bytes <= 2 bytes; literals: every byte string of <= 4 bytes",
+        "thorough": "coefficients < 10^6, exponents in [-2,2]; float*float < 10^18 (reaches the recorded precision finding); literals <= 6 bytes",
+    },
+    "outside": ["/ (Quo) and reduceKeepingFloats", "Pow, pkg/math", "printing and re-reading numbers", "NaN/Infinity"],
+    "assumptions": APD_ASSUMPTIONS,
+    "validate": [{"kind": "apdgrid"}],
+    "runs": [
+        {
+            "pkg": "./internal/core/adt",
+            "harness": ["adt/common.go", "adt/arith.go"],
+            "apdmodel": True,
+            "entries": {
+                "quick": [
+                    {"name": "verifHarnessArithExact", "params": {"DIGITS": 3, "EXP": 1}},
+                    {"name": "verifHarnessArithExact", "params": {"DIGITS": 18, "EXP": 0, "INTS": 1, "OP": 2}, "timeout": 60000},
+                    {"name": "verifHarnessArithExact", "params": {"DIGITS": 35, "EXP": 0, "INTS": 1, "OP": 0}},
+                    {"name": "verifHarnessArithExact", "params": {"DIGITS": 35, "EXP": 0, "INTS": 1, "OP": 1}},
+                    {"name": "verifHarnessIntDiv", "params": {"DIGITS": 3}, "timeout": 60000},
+                    {"name": "verifHarnessCompareOrder", "params": {"DIGITS": 3, "EXP": 1, "STRLEN": 2}},
+                ],
+                "thorough": [
+                    {"name": "verifHarnessArithExact", "params": {"DIGITS": 6, "EXP": 2}},
+                    {"name": "verifHarnessArithExact", "params": {"DIGITS": 18, "EXP": 0, "INTS": 1, "OP": 2}, "timeout": 120000},
+                    {"name": "verifHarnessArithExact", "params": {"DIGITS": 18, "EXP": 0, "INTS": 0, "OP": 2}, "timeout": 120000},
+                    {"name": "verifHarnessArithExact", "params": {"DIGITS": 40, "EXP": 0, "INTS": 1, "OP": 0}},
+                    {"name": "verifHarnessArithExact", "params": {"DIGITS": 40, "EXP": 0, "INTS": 1, "OP": 1}},
+                    {"name": "verifHarnessIntDiv", "params": {"DIGITS": 4}, "timeout": 120000},
+                    {"name": "verifHarnessCompareOrder", "params": {"DIGITS": 6, "EXP": 2, "STRLEN": 3}},
+                ],
+            },
+        },
+        {
+            "pkg": "./cue/scanner",
+            "harness": ["scanner/total.go", "scanner/numvalue.go"],
+            "apdmodel": True,
+            "entries": {
+                "quick": [{"name": "verifHarnessNumLiteralValue", "params": {"N": 4}}],
+                "thorough": [{"name": "verifHarnessNumLiteralValue", "params": {"N": 6}}],
             },
         },
     ],
